@@ -49,6 +49,9 @@ def tiny_configs(wide: bool = False) -> List[dict]:
                         view("off", 1, size=3, off=1), view("off", 2, size=3, off=1)], targets=[3, 4]))
     # two CDDA-like windows over the file
     C.append(config(8, [view("off", 0, size=4, off=0), view("off", 0, size=4, off=4)]))
+    # empty windows (an AKAI sample whose markers coincide): read must return nothing
+    C.append(config(6, [view("off", 0, size=0, off=2)]))
+    C.append(config(8, [view("chain", 0, slen=2, lst=[2, 0]), view("wrap", 1, size=4), view("off", 2, size=0, off=1)], targets=[3]))
     return C
 
 
@@ -82,10 +85,11 @@ def mc_module(configs: List[dict], name: str = "MCStreams") -> str:
 
 
 def streams_cfg(*, depth: int, keep: bool, opviews: str, emit: bool, invariants: List[str],
-                zero_read: bool = True, reseek: bool = True) -> str:
+                zero_read: bool = True, reseek: bool = True, empty_clip: bool = True) -> str:
     return tlc.cfg_text(
         constants=dict(Configs=tlc.Subst("MCConfigs"), Depth=depth, KeepHist=keep, OpViews=opviews,
-                       ZeroReadAtChainEnd=zero_read, ReseekTest=reseek, EmitCases=emit),
+                       ZeroReadAtChainEnd=zero_read, ReseekTest=reseek, EmptyWindowReadsNothing=empty_clip,
+                       EmitCases=emit),
         invariants=invariants)
 
 
